@@ -16,6 +16,10 @@ PROP = {
          "facets": ["C14/manager", "C14/exit-race-stress"], "checks": (20000, 200000), "shards": (4, 16), "timeout": (600, 3000)},
         {"name": "c14enum", "pkg": "./internal/pkg/controler/pause", "run": "^TestVerif_C14_ManagerExhaustive$", "kind": "plain", "toolchain": "go126",
          "facets": ["C14/manager-enum"], "shards": (1, 1), "timeout": (600, 3000)},
+        # the pause issued by the disk watchdog against a shutdown: StopDiskWatcher() - the first step of stopPipeline() -
+        # must return whatever the paused state (real WatchDiskSpace under virtual time, shared with C18/watcher and C03)
+        {"name": "c14watch", "pkg": "./internal/pkg/controler/watchers", "run": "^TestVerif_C18_Watcher$", "kind": "rapid", "toolchain": "go126",
+         "facets": ["C14/watcher-stop"], "checks": (1500, 20000), "shards": (2, 8), "timeout": (600, 3000)},
         {"name": "c14kf1", "pkg": "./internal/pkg/controler/pause", "run": "^TestVerifKF_C14_ResumeWithoutPause$", "kind": "kf", "toolchain": "go126",
          "finding": "C14-resume-without-pause-blocks", "facets": [], "shards": (1, 1)},
     ],
